@@ -33,6 +33,10 @@ theorem mono_sensitive (a b : Ty) (h : asg cfg sfh a b = true) : asg cfg sfh (.s
   rw [asg_plain_r cfg sfh _ _ rfl]; simp only [Bool.or_eq_true]; right
   unfold asgRecv; simp [h]
 
+theorem mono_iterator (a b : Ty) (h : asg cfg sfh a b = true) : asg cfg sfh (.iterator a) (.iterator b) = true := by
+  rw [asg_plain_r cfg sfh _ _ rfl]; simp only [Bool.or_eq_true]; right
+  unfold asgRecv; simp [h]
+
 theorem mono_iterable (a b : Ty) (h : asg cfg sfh a b = true) : asg cfg sfh (.iterable a) (.iterable b) = true := by
   rw [asg_plain_r cfg sfh _ _ rfl]; simp only [Bool.or_eq_true]; right
   unfold asgRecv; simp [h]
